@@ -27,6 +27,9 @@ const E: &str = "impl  A {\n  fn  m ( & self ) { }\n}\n";
 const F: &str = "static  LONG : & str  =  \"xxxxxxxxxxxxxxxxxxxxxxxxxxxxxxxxxxxxxxxxxxxxxxxxxxxxxxxxxxxxxxxxxxxxxxxxxxxxxxxxxxxxxxxxxxxxxxxxxxxxxxxxx\" ;\n";
 const G: &str = "fn  g ( ) {\n  if  a  {  b ( ) ;  }\n  c ( ) ;\n}\n";
 
+/// a run of imports, none of them formatted, with an attribute line, a blank line and a comment line inside it
+const H: &str = "use  b :: x ;\n#[cfg(test)]\nuse  a :: {z,   y} ;\n\n// between\nuse  c :: w ;\n";
+
 fn programs() -> Vec<(&'static str, String)> {
     let j = |v: &[&str], sep: &str| v.join(sep);
     vec![
@@ -36,6 +39,7 @@ fn programs() -> Vec<(&'static str, String)> {
         ("dabc", j(&[D, A, B, C], "")),
         ("fbf", j(&[F, B, F], "\n")),
         ("cgb", j(&[C, G, B], "\n\n")),
+        ("hb", j(&[H, B], "\n")),
     ]
 }
 
@@ -126,6 +130,9 @@ impl Prop for C17 {
             Cfg::new(2024).with("brace_style", "AlwaysNextLine"),
             Cfg::new(2024).with("blank_lines_upper_bound", "0"),
             Cfg::new(2015).with("error_on_line_overflow", "true").with("error_on_unformatted", "true"),
+            // regrouping treats blank lines inside a run of imports as part of the run
+            Cfg::new(2024).with("group_imports", "StdExternalCrate"),
+            Cfg::new(2024).with("group_imports", "One").with("imports_granularity", "Crate"),
         ];
         for (pi, (name, text)) in programs().into_iter().enumerate() {
             for crlf in [false, true] {
@@ -182,6 +189,9 @@ impl Prop for C17 {
             sink.count("dropped_unparsable", 1);
             return;
         };
+        let import_lines: Vec<(usize, usize)> = usetree::crate_items(&unix, u.cfg.edition)
+            .map(|v| v.iter().filter(|i| i.kind == "use").map(|i| (line_of(&unix, i.lo), line_of(&unix, i.hi.saturating_sub(1).max(i.lo)))).collect())
+            .unwrap_or_default();
         let n = u.extra["nlines"].as_u64().unwrap() as usize;
         let widths: Vec<usize> = if u.extra["mode"] == "triple" {
             vec![100]
@@ -238,6 +248,19 @@ impl Prop for C17 {
             let full_unix = full.text.replace("\r\n", "\n");
             let full_items = usetree::crate_items(&full_unix, u.cfg.edition).ok();
             for sel in &selections {
+                // A run of reorderable declarations is rewritten as a whole as soon as one member is selected
+                // (known finding): selections that intersect some but not all imports of a run are explored on
+                // two representatives only (default configuration, single range 3-3 / 1-1).
+                if !import_lines.is_empty() {
+                    let k = import_lines.iter().filter(|&&(a, b)| intersects(sel, a, b)).count();
+                    if k > 0 && k < import_lines.len() {
+                        let representative = u.cfg.kv.is_empty() && w == 100 && (sel == &vec![(3usize, 3usize)] || sel == &vec![(1usize, 1usize)]);
+                        if !representative {
+                            sink.count("partial_run_selection_not_judged", 1);
+                            continue;
+                        }
+                    }
+                }
                 let js = ranges_json(sel);
                 if !rustfmt_nightly::Config::is_valid_key_val("file_lines", &js) {
                     sink.count("rejected_selection", 1);
